@@ -38,7 +38,13 @@ package ring
 //@   loop 1 invariant len(itemTrackers) == len(keys) && cleanups == 0 && !spawned && !isnil(instances) && ($i > 0 || i > 0 ==> len(instances) > 0)
 //@   loop 1 invariant forall a string :: in(a, instances) ==> len(instances[a].indexes) == len(instances[a].itemTrackers) && len(instances[a].indexes) >= 1
 //@   loop 1 invariant forall a string :: in(a, instances) ==> (forall j int :: 0 <= j && j < len(instances[a].indexes) ==> 0 <= instances[a].indexes[j] && instances[a].indexes[j] <= i)
-//@   loop 2 invariant cleanups == 0
+//@   loop 2 invariant cleanups == 0 && handed == $i
+//@   # the function that waits for the replica calls and then cleans up is handed to the spawner only after EVERY replica call
+//@   # has been handed to it (a spawner with bounded concurrency runs what it is given in order: a waiter queued first would
+//@   # occupy the worker the replica calls need, and the batch would never finish)
+//@   ghost var handed int = 0
+//@   at before@o.Go#0: handed := handed + 1
+//@   at before@o.Go#1: assert waiter_after_all_replica_calls: handed == len(instances)
 //@
 //@ # ---- the per-key accounting (sequential view: one replica outcome is recorded at a time; the atomic counters make the
 //@ # decisions race-free, which is assumed, not proved) ----------------------------------------------------------------
